@@ -45,3 +45,10 @@ VARIANTS += [
                                                     E(UT, "    ext = get_short_ext(path)\n    if ext == 'pdf':\n        return 'iso-8859-1'", "    ext = get_short_ext(path)\n    if ext in FileType.LATIN1_FILES:\n        return 'iso-8859-1'")],
       kind='refactor'),
 ]
+
+VARIANTS += [
+    M('C04', 'compiled-patterns-remembered-on-the-instance', [E(CF, "    def compile_patterns(self, ignore_patterns):\n", "    def compile_patterns(self, ignore_patterns):\n        if ignore_patterns is getattr(self, '_ignore_patterns', None):\n            return self._compiled_patterns\n"),
+                                                               E(CF, "        compiled_patterns = [re.compile(p) for p in anchored_patterns]\n", "        compiled_patterns = [re.compile(p) for p in anchored_patterns]\n        self._ignore_patterns = ignore_patterns\n        self._compiled_patterns = compiled_patterns\n")],
+      rule='C04-STATELESS', key='compile_patterns'),
+    M('C04', 'refactor-compile-in-local-helper', E(CF, "        compiled_patterns = [re.compile(p) for p in anchored_patterns]\n", "        compile_one = re.compile\n        compiled_patterns = [compile_one(p) for p in anchored_patterns]\n"), kind='refactor'),
+]
